@@ -276,3 +276,12 @@ Theorem svcb_roundtrip_origin_thm : forall o prio target ps b A P,
   hand_encode_rdata HSvcb (Some o) [VS (VI prio); VS (VN target); VL ps] = Ok b ->
   hand_decode_rdata HSvcb (Some o) (A ++ b ++ P) (length A) (length b) = Ok [VS (VI prio); VS (VN target); VL ps].
 Proof. intros o prio target ps b A P Ho. apply svcb_roundtrip_gen. apply hname_origin. exact Ho. Qed.
+
+(* APL, LOC and OPT contain no origin-relative name (REPORTCHANNEL is read with get_name() without
+   origin): their codecs do not depend on the origin at all, so the theorems stated for `None`
+   hold for every origin *)
+Theorem hand_origin_irrelevant_thm : forall h o wire cur rdlen vs,
+  (h = HApl \/ h = HLoc \/ h = HOpt) ->
+  hand_decode_rdata h o wire cur rdlen = hand_decode_rdata h None wire cur rdlen /\
+  hand_encode_rdata h o vs = hand_encode_rdata h None vs.
+Proof. intros h o wire cur rdlen vs [->|[->| ->]]; split; reflexivity. Qed.
